@@ -86,8 +86,18 @@ Wall time on this machine (16 cores): every quick tier finishes in under 3 minut
 * **C17** uses one symbolic permutation (distinct solver integers) as the shuffled order instead of enumerating orders.
 * **torch's partial-overlap rule** (`assert_no_partial_overlap`) was added to the tensor stand-in after a seeding agent
   noticed a crash at batch size 1; with it the C09 check finds that crash itself (8.5).
-* **MDCPDP** got a spec with an oracle for the documented constraints only (visit once, pickup before delivery, capacity of
-  the vehicle of the depot visited last); it is part of C01, C02 and C18, not of C03-C06.
+* **MDCPDP** got a spec with an oracle for the documented constraints (visit once, pickup before delivery, capacity of
+  the vehicle of the depot visited last) and, for `reward_mode="minsum"`, the total length driven; it is part of C01-C04 and
+  C18, not of C05/C06 (no documented notion of which depot moves are allowed; its checker is a stub). Four defects found.
+* **MTVRP** is also checked on batches that mix variants (as the `all` preset produces) and on instances generated with a
+  speed other than 1.
+* **Confirmation fallback for C04**: a counterexample in genuinely 2-D geometry has no exact (collinear) model under the
+  distance abstraction, so its direct replay may not reproduce. In that case the real-torch side searches real generator
+  instances in the same batch composition (random mask-admitted rollouts, the row under test re-run alone) and reports
+  only a discrepancy it actually observes. The search runs only after the solver produced a counterexample; it never
+  turns an `unsat` into anything.
+* **Witness search for nonlinear counterexamples (C16)**: when z3 answers `unknown` on the (satisfiable) negation, ground
+  candidate assignments are tried and checked by the solver; again only to obtain a witness of a violation.
 * Scheduling (C07) instances come both from hand-built symbolic shapes and from the real generators with sampler stubs.
 * Seeded changes are tested in a scratch worktree (`VERIF_REPO`, `VERIF_OUT`), never by patching `/repo`.
 
@@ -114,6 +124,7 @@ property. None is listed as a known finding; the machinery was corrected.
 | C20 | `scale_norm` 2x2 batch and `welford m=3` with symbolic history length did not finish | nonlinear query | cases dropped from the plan / given a concrete history length; a timeout is exit 2, never success |
 | C13 best-selection at n=4 | inconclusive (tour lengths of symbolic permutations) | reward term too heavy for what is a row-selection question | reward = uninterpreted function of (instance, sequence) in those jobs |
 | C05 thorough | MTVRP variants with distance limit and time windows at n=3 time out | query size | those sizes removed from the plan (n=2 remains) and stated |
+| C04 / C05 thorough | "reachability witness does not replay" (CVRPTW n=3 B=3) | the only model of that path left distances to the abstraction (no collinear completion), the real run need not follow it | such witnesses are marked inexact and skipped (noted in evidence), exact ones still must replay |
 | C12 feasibility | (design decision) | "feasible ... whenever at least k feasible starts exist" read as: feasibility whenever the instance has a feasible start, distinctness whenever it has k | holds on the repaired tree except for the two recorded OP findings |
 | seed handling | an agent's `git stash` and mine interleaved (the stash is shared between worktrees): /repo briefly carried an agent's mutation | process error | /repo restored from git, seeds are now tested in scratch worktrees, agents told not to stash |
 
@@ -141,7 +152,7 @@ check was strengthened (never special-cased to the seed) and the table says so.
 
 * Sizes above the stated bounds; float32 rounding (reals everywhere except the FP-mode jobs of C05 and C19; concrete
   differential runs only sample it).
-* MDCPDP reward / checker / reachability; MPDP; FFSP in C05; DPP/MDPP rewards (downloaded data).
+* MDCPDP lateness rewards / checker / reachability; MPDP; FFSP in C05; DPP/MDPP rewards (downloaded data).
 * OP `prize_type='dist'`, non-uniform location samplers (cluster, mixed, Gaussian mixture).
 * The DACT / N2S / NeuOpt policies' own move selection (C09 covers every mask-admitted 2-opt and ruin-repair move and every
   move of the environments' samplers up to 4-opt, not NeuOpt's internal masks).
